@@ -1,6 +1,9 @@
 """C01 — BIP-39 phrases <-> entropy: Mnemonic::from_phrase / to_phrase / mnemonic_length against Model/Bip39.v, with an
 independent Python BIP-39 as the property's own predicate."""
 import hashlib
+import os
+
+import common
 
 from coqrun import pb, tx
 from gen import prims, pyref
@@ -21,7 +24,7 @@ LENS = {12: 16, 15: 20, 18: 24, 21: 28, 24: 32}
 
 
 def words():
-    return open("/repo/src/mnemonic/wordlist/english.txt").read().split()
+    return open(os.path.join(os.path.dirname(os.path.dirname(os.path.dirname(os.path.abspath(__file__)))), "data", "bip39-english.txt")).read().split()
 
 
 def oracle(text, wl, widx):
@@ -63,7 +66,7 @@ def run(ctx):
     thorough = ctx.tier == "thorough"
     wl = words()
     widx = {w: i for i, w in enumerate(wl)}
-    if len(wl) != 2048 or hashlib.sha256(open("/repo/src/mnemonic/wordlist/english.txt", "rb").read()).hexdigest() != \
+    if len(wl) != 2048 or hashlib.sha256(open(os.path.join(common.REPO, "src/mnemonic/wordlist/english.txt"), "rb").read()).hexdigest() != \
             "2f5eed53a4727b4bf8880d8f3f199efc90e58503646d9ff8eff3a2ed3b24dbda":
         ctx.violation("wordlist-file", dict(file="src/mnemonic/wordlist/english.txt"), "the official BIP-39 English list (SHA-256 2f5eed53…dbda)",
                       dict(words=len(wl)))
